@@ -7,7 +7,8 @@ from typing import Any, Dict, List
 from harness import bridge, common, record, replay_deser, tlc
 from harness.engine_deser import MC_CFG
 
-GAP_FINDINGS = {"flattened": "F-flattened-schema", "mapkeys": "F-mapkeys-schema", "discriminated": "F-discriminated-schema"}
+GAP_FINDINGS = {"flattened": "F-flattened-schema", "mapkeys": "F-mapkeys-schema", "discriminated": "F-discriminated-schema",
+                "patoverlap": "F-pattern-overlap"}
 
 
 def main() -> int:
@@ -91,9 +92,9 @@ def main() -> int:
         bridge.cleanup_gen_dir()
     # negative model checks: each known gap, once removed from the exclusions, violates SchemaAgrees
     neg = {}
-    for gap, tier in (("flattened", "obj"), ("mapkeys", "d1"), ("discriminated", "d1")):
+    for gap, tier in (("flattened", "obj"), ("mapkeys", "d1"), ("discriminated", "d1"), ("patoverlap", "obj")):
         rest = [g for g in GAP_FINDINGS if g != gap]
-        cfg = (MC_CFG % tier).replace('SchemaGaps = {"flattened", "mapkeys", "discriminated"}',
+        cfg = (MC_CFG % tier).replace('SchemaGaps = {"flattened", "mapkeys", "discriminated", "patoverlap"}',
                                       "SchemaGaps = {" + ", ".join(f'"{g}"' for g in rest) + "}") + "INVARIANT SchemaAgrees\n"
         r = tlc.run_tlc("MC_Deser", cfg, workers=16, env={"EMIT": "0"}, timeout_s=3000)
         neg[gap] = r.violated
